@@ -2,7 +2,7 @@
    resolve to their pointer.  For EVERY token width W and every limit
    1 <= max < W-1 (strictly more than the 8-bit exploration the property text
    suggests).  Statements only; proofs in AppPtr_proofs.v. *)
-From RLBoxV Require Import AppPtr AppPtr_proofs.
+From RLBoxV Require Import AppPtr AppPtr_proofs AppPtr_owner_proofs.
 Local Open Scope Z_scope.
 
 (* one registration from any state satisfying the invariant: a fresh token in
@@ -59,8 +59,46 @@ Theorem C15_limit_is_type_max_diverges :
   get_unused_index 4 3 {| entries := [(0,0); (1,11); (2,12); (3,13)]; counter := 2 |} = Diverge.
 Proof. exact limit_is_type_max_diverges. Qed.
 
-(* owner layer — partial: decided by correspondence (exhaustive histories) and the two
-   statements below; the full "held = live for all owner histories" induction is not proved *)
+(* owner layer (rlbox_policy_types.hpp app_pointer objects): after EVERY history of
+   get_app_pointer into an empty or a live slot, moves between slots and destructions, over any
+   number n of owner slots, any token width W and any limit 1 <= max < W-1:
+   the table invariant holds; no token has two owners; the tokens held by live owners are exactly
+   the non-zero keys of the table (nothing leaks, nothing dangles); and every live owner's token is
+   in [1,max] and resolves to the pointer the abstract history (the ghost fold) says that slot stands
+   for, while every inert slot stands for nothing. *)
+Theorem C15_owners_all_histories : forall W max n ops w,
+  1 <= max -> max < W - 1 -> Forall (oop_ok n) ops ->
+  orun code_overwrite_releases W max {| amapw := amap_init; owners := repeat None n |} ops = Ok w ->
+  ainv max (amapw w) /\
+  NoDup (held (owners w)) /\
+  (forall i, In i (held (owners w)) <-> In i (live_tokens (amapw w))) /\
+  (forall k, match owner_at w k, fold_left gstep ops ghost_init k with
+             | Some i, Some p => 1 <= i <= max /\ lookup_index i (amapw w) = Ok p
+             | None, None => True
+             | _, _ => False
+             end).
+Proof. exact owners_hold_live_tokens. Qed.
+Print Assumptions C15_owners_all_histories.
+
+(* an owner operation aborts only when it is a registration into a full table; releases (by
+   destruction, by being overwritten, by being moved onto) never abort *)
+Theorem C15_owner_step_aborts_only_when_full : forall W max n w g o,
+  1 <= max -> max < W - 1 -> ginv max n None w g -> oop_ok n o ->
+  (exists w', ostep code_overwrite_releases W max w o = Ok w' /\ ginv max n None w' (gstep g o)) \/
+  (exists k ptr, o = OGet k ptr /\ ostep code_overwrite_releases W max w o = Abort /\
+                 forall i, 1 <= i <= max -> In i (keys (entries (amapw w)))).
+Proof. exact owner_step_aborts_only_when_full. Qed.
+Print Assumptions C15_owner_step_aborts_only_when_full.
+
+Theorem C15_owners_nonvacuous :
+  exists w, orun true 256 200 {| amapw := amap_init; owners := repeat None 3 |}
+              [OGet 0%nat 101; OGet 1%nat 102; OGet 0%nat 103; OMove 2%nat 1%nat; ODestroy 0%nat] = Ok w /\
+            owners w = [None; None; Some 2] /\ live_tokens (amapw w) = [2] /\
+            fold_left gstep [OGet 0%nat 101; OGet 1%nat 102; OGet 0%nat 103; OMove 2%nat 1%nat; ODestroy 0%nat]
+                      ghost_init 2%nat = Some 102.
+Proof. exact owners_example. Qed.
+
+(* concrete witnesses: the state after the fix, and the leak before it (D9') *)
 Theorem C15_owner_overwrite_partial :
   exists w, orun true 256 200 {| amapw := amap_init; owners := [None; None] |} [OGet 0%nat 101; OGet 0%nat 102; OMove 1%nat 0%nat] = Ok w /\
             held (owners w) = [2] /\ live_tokens (amapw w) = [2] /\ owners w = [None; Some 2].
